@@ -3298,14 +3298,20 @@ def resolve_sequences(items):
             new_items.append(item)
             continue
 
-        values = [int(value, base=0) for value in item.values]
+        try:
+            values = [int(value, base=0) for value in item.values]
+        except ValueError:
+            raise AssemblerError('invalid integer in {} sequence'.format(item.name), item.line)
 
         data = bytearray()
         for value in values:
             fmt = endianness + formats[item.name]
             if value < 0:
                 fmt = fmt.lower()
-            value = struct.pack(fmt, value)
+            try:
+                value = struct.pack(fmt, value)
+            except struct.error:
+                raise AssemblerError('value out of range for {}: {}'.format(item.name, value), item.line)
             data.extend(value)
         blob = Blob(item.line, bytes(data))
         new_items.append(blob)
@@ -3349,7 +3355,10 @@ def resolve_packs(items):
             new_items.append(item)
             continue
 
-        data = struct.pack(item.fmt, item.imm)
+        try:
+            data = struct.pack(item.fmt, item.imm)
+        except struct.error:
+            raise AssemblerError('value out of range for format "{}": {}'.format(item.fmt, item.imm), item.line)
         blob = Blob(item.line, data)
         new_items.append(blob)
 
